@@ -292,8 +292,13 @@ class ApiMergeStoreHandler(NbdimeHandler, APIHandler):
         # Somehow store unsolved conflicts?
         # conflicts = body['conflicts']
 
+        # Serialize before opening the file for writing, so that a document
+        # that cannot be written does not leave a truncated output file behind:
+        content = nbformat.writes(merged_nb)
         with io.open(path, 'w', encoding='utf8') as f:
-            nbformat.write(merged_nb, f)
+            f.write(content)
+            if not content.endswith('\n'):
+                f.write('\n')
         self.finish()
 
 
